@@ -87,6 +87,8 @@ def r16_2(prog, out):
                 out.holds(key, di.loc(vh.responder_bb), "reply result is discarded (`let _ = responder.send(..)`)")
 
 
+@rule("C11", "R16.4", "no drop guard takes back part of a request while a detached task completes the rest", floor=1)
+@rule("C10", "R16.4", "no drop guard takes back part of a request while a detached task completes the rest", floor=1)
 @rule("C16", "R16.4", "no drop guard takes back part of a request while a detached task completes the rest", floor=1)
 def r16_4(prog, out):
     """Cancellation runs destructors.  A guard value whose `Drop` undoes something in shared state (releases the name it
@@ -211,3 +213,68 @@ def r16_5(prog, out):
                 out.violation(key, ci.loc(cbb), "%s::%s is sent after an earlier step of the operation has taken effect, its reply channel belongs to the caller's "
                               "cancellable future (%s), and the actor drops requests whose responder is closed (%s): a caller that goes away leaves the "
                               "operation half done" % (short_ty(req), v, o.kind, site))
+
+
+def _r16_6(prog, out):
+    """A worker task that applies requests already taken from the client (a queue of parsed control messages, a batch of acks) is
+    a promise that they will be applied.  A value whose `Drop` *aborts* that task breaks the promise whenever the value goes out
+    of scope before the queue is empty -- the client half-closes its side, the stream ends, the call is dropped: what was
+    accepted and is still queued is discarded, although nothing told the client so.  Instances: every `Drop::drop` of the crate
+    that aborts a task (`JoinHandle::abort`, `AbortHandle::abort`, dropping a JoinSet) whose body sends mutating requests to an
+    actor; the reference tree has none (instance `aborting-guards`)."""
+    import libmodel as L
+    m = model(prog)
+    found = 0
+    for b in prog.facts.lib_bodies():
+        if b.impl_trait not in ("std::ops::Drop", "core::ops::Drop") or not b.id.endswith("::drop") or not b.impl_self:
+            continue
+        bi = prog.info(b.id)
+        aborts = [(bb, t) for bb, t in bi.calls(lambda c: c.path.endswith("::abort") and ("JoinHandle" in c.path or "AbortHandle" in c.path)) ]
+        aborts += [(bb, t) for bb, t in bi.calls(lambda c: c.path.endswith("JoinSet::<T>::abort_all") or c.path.endswith("JoinSet::<T>::shutdown"))]
+        if not aborts:
+            continue
+        ty = b.impl_self.split("<")[0]
+        # the tasks stored in values of this type: spawns whose JoinHandle flows into a construction of the type
+        tasks = []
+        for (cb, cbb, _i, rv) in prog.constructions(ty):
+            ci = prog.info(cb)
+            for op in rv.ops:
+                if op.place is None:
+                    continue
+                o = ci.trace(op)
+                if o.kind == "call":
+                    for sp in ci.spawns:
+                        if sp.bb == o.data and sp.task is not None:
+                            tasks.append((cb, sp))
+        for cb, sp in tasks:
+            found += 1
+            key = "aborts-worker:%s" % short_ty(ty)
+            labels = m.task_effect_label(sp.task)
+            queue = any(await_class(prog, prog.info(x), a) == "mpsc_recv" for x in prog.cone(sp.task, follow=("call", "closure", "poll")) if prog.info(x) is not None
+                        for a in prog.info(x).awaits)
+            if labels and queue:
+                out.violation(key, bi.loc(aborts[0][0]), "dropping a %s aborts the task that applies what was queued for it (%s): requests the server already accepted from the "
+                              "client are discarded when the value goes out of scope with a non-empty queue (the client half-closes, the stream ends)" % (
+                                  short_ty(ty), ", ".join(sorted(set(labels))[:3])),
+                              ["task spawned at %s" % prog.loc(cb, sp.bb), "aborted in %s" % prog.loc(b.id)])
+            elif labels:
+                out.undecided(key, bi.loc(aborts[0][0]), "dropping a %s aborts a task with effects (%s); whether accepted work can be pending in it is not decided" % (
+                    short_ty(ty), ", ".join(sorted(set(labels))[:3])))
+            else:
+                out.holds(key, bi.loc(aborts[0][0]), "the aborted task changes nothing")
+    out.holds("aborting-guards", "", "%d task(s) are aborted by a Drop impl of the crate" % found, nontrivial=False)
+
+
+@rule("C16", "R16.6", "no Drop impl aborts a worker that applies requests already accepted from the client", floor=1)
+def r16_6_c16(prog, out):
+    _r16_6(prog, out)
+
+
+@rule("C07", "R16.6", "no Drop impl aborts a worker that applies requests already accepted from the client", floor=1)
+def r16_6_c07(prog, out):
+    _r16_6(prog, out)
+
+
+@rule("C02", "R16.6", "no Drop impl aborts a worker that applies requests already accepted from the client", floor=1)
+def r16_6_c02(prog, out):
+    _r16_6(prog, out)
